@@ -110,6 +110,7 @@ static std::string san_kind(std::string const& err, int status)
 }
 
 // `snap`: canonical text of the object under test (callable in the handler); `body`: the call, returns the ok-line.
+static int g_timeouts = 0;
 static std::string in_child(std::function<std::string()> snap, std::function<std::string()> body)
 {
     std::string pre;
@@ -119,7 +120,9 @@ static std::string in_child(std::function<std::string()> snap, std::function<std
     pid_t pid = ::fork();
     if (pid < 0) { std::perror("fork"); std::exit(2); }
     if (pid == 0) {
-        ::alarm(30); // a call that never returns (e.g. a loop running on a corrupted size) ends as ub(signal:14)
+        // a call that never returns (e.g. a loop running on a corrupted size) ends as ub(signal:14); after a few of
+        // them the budget per call drops to one second so that a tree on which every unchecked call hangs still ends
+        ::alarm(g_timeouts < 8 ? 10 : 1);
         ::close(p[0]);
         ::close(q[0]);
         ::dup2(q[1], 2);
@@ -140,6 +143,7 @@ static std::string in_child(std::function<std::string()> snap, std::function<std
     ::close(q[0]);
     int status = 0;
     ::waitpid(pid, &status, 0);
+    if (WIFSIGNALED(status) && WTERMSIG(status) == SIGALRM) ++g_timeouts;
     if (out.rfind("P ", 0) == 0) { // the pre-state snapshot taken in the child after the setup calls
         auto nl = out.find('\n');
         pre     = out.substr(2, nl == std::string::npos ? std::string::npos : nl - 2);
